@@ -326,4 +326,29 @@ def poolOutcome (respAlreadyBuilt : Bool) : PoolErr → String × Option Nat
   | .shortCircuited => ("shortCircuited", some 503)
   | .poolError code result => (result, if respAlreadyBuilt then none else some code)
 
+/-! ## `resilience.CircuitBreakerPolicy.CreateWrapper` (Extension resil, round 3) -/
+
+/-- the policy as configured (`resilience.CircuitBreakerPolicy`) -/
+structure RawPolicy where
+  winType : String       -- SlidingWindowType
+  failTh : Nat
+  slowTh : Nat
+  size : Nat
+  permitted : Nat
+  minCalls : Nat
+  slowDur : String       -- SlowCallDurationThreshold
+  maxWaitHalf : String   -- MaxWaitDurationInHalfOpen
+  waitOpen : String      -- WaitDurationInOpen
+deriving Repr, DecidableEq
+
+/-- the `libcb.Policy` `CreateWrapper` builds (`parse` = `time.ParseDuration`, which yields 0 on error):
+window type TIME_BASED in any case, else count based; slow-call threshold and open wait default to one
+minute, the half-open maximum wait to 0 (= none) -/
+def policyOf (raw : RawPolicy) (parse : String → Int × Bool) : Policy :=
+  { failTh := raw.failTh, slowTh := raw.slowTh, timeBased := raw.winType.toUpper == "TIME_BASED",
+    size := raw.size, permitted := raw.permitted, minCalls := raw.minCalls,
+    slowDur := if raw.slowDur != "" then (parse raw.slowDur).1 else 60000000000,
+    maxWaitHalf := if raw.maxWaitHalf != "" then (parse raw.maxWaitHalf).1 else 0,
+    waitOpen := if raw.waitOpen != "" then (parse raw.waitOpen).1 else 60000000000 }
+
 end EgVerif.CircuitBreaker
